@@ -1357,7 +1357,11 @@ fn validate_version_nums(version_nums: &BTreeSet<VersionNum>, result: &ParseVali
             }
         }
 
-        next_version = next_version.next().unwrap();
+        next_version = match next_version.next() {
+            Ok(next) => next,
+            // The versions are ordered and this is the largest possible version number
+            Err(_) => break,
+        };
     }
 
     if !consistent_padding {
